@@ -70,21 +70,20 @@ Section Facts.
     induction ls as [|y r IH]; simpl; [reflexivity|]. destruct (label_eqb y x); simpl; [reflexivity|].
     rewrite IH. destruct (pos x r); reflexivity.
   Qed.
-  (* list / tuple / range / NumPy (non-tuple labels) / pandas (given its two oracles behave) spans are ok *)
+  (* list / tuple / range / duplicate-free NumPy-array (any labels, also tuples, since fix 35fe7e2) / pandas (given its two oracles
+     behave) spans are ok *)
   Lemma old_span_ok_intro (old : span) (labels : list label) :
     span_ok pd_get_loc old ->
-    (forall p, In p labels -> label_ok old p) ->
     (forall ls, old = SPandas ls -> forall p, In p labels -> pd_contains ls p = is_some (pos p ls)) ->
     old_span_ok old labels.
   Proof.
-    intros Hok Hlab Hpd p Hp. split.
+    intros Hok Hpd p Hp. split.
     - destruct old as [ls|a s n|ls|ls]; simpl.
       + rewrite existsb_pos. reflexivity.
       + rewrite existsb_pos. reflexivity.
-      + specialize (Hlab p Hp). simpl in Hlab. rewrite arr_eq_scalar by exact Hlab.
-        rewrite existsb_map_id. rewrite existsb_pos. reflexivity.
+      + unfold arr_eq. rewrite existsb_map_id. rewrite existsb_pos. reflexivity.
       + rewrite (Hpd ls eq_refl p Hp). reflexivity.
-    - intros q Hq. pose proof (locate_meets_spec pd_get_loc old p Hok (Hlab p Hp)) as S. rewrite Hq in S. exact S.
+    - intros q Hq. pose proof (locate_meets_spec pd_get_loc old Hok p) as S. rewrite Hq in S. exact S.
   Qed.
 
   (* the (new position, old position) pairs the position map must contain, in order *)
@@ -536,19 +535,22 @@ Section Facts.
   Proof.
     induction names as [|name rest IH]; intros r r' H; simpl in H.
     - inversion H; subst. repeat split; reflexivity.
-    - destruct (lookup name (c_vars orig)) as [so|]; [|discriminate].
-      destruct (lookup name (c_vars r)) as [sn|] eqn:En; [|discriminate].
-      destruct (series_reindex (c_span orig) (s_dtype so) (s_data so) new_span (mf name) (fill_for fills fv name)) as [vals|e]; simpl in H; [|discriminate].
-      destruct (assign_cast (s_dtype sn) vals) as [d|e]; simpl in H; [|discriminate].
-      destruct (IH _ _ H) as [I1 [I2 [I3 [I4 [I5 [I6 I7]]]]]].
-      split; [rewrite I1; reflexivity|]. split; [rewrite I2; reflexivity|]. split; [rewrite I3; reflexivity|].
-      split; [rewrite I4; reflexivity|]. split; [rewrite I5; simpl; apply replace_keys|]. split.
-      + rewrite I6. simpl. clear - En. induction (c_vars r) as [|[k a] l IHl]; simpl in *; [reflexivity|].
-        destruct (String.eqb name k) eqn:E; simpl.
-        * inversion En; subst. reflexivity.
-        * rewrite IHl by exact En. reflexivity.
-      + intros k Hk. simpl in Hk. apply orb_false_iff in Hk as [Hk1 Hk2]. rewrite (I7 k Hk2).
-        simpl. apply lookup_replace_other. intros E. subst. rewrite String.eqb_refl in Hk1. discriminate.
+    - destruct (mf name) as [m|].
+      + destruct (lookup name (c_vars orig)) as [so|]; [|discriminate].
+        destruct (lookup name (c_vars r)) as [sn|] eqn:En; [|discriminate].
+        destruct (series_reindex (c_span orig) (s_dtype so) (s_data so) new_span (Some m) (fill_for fills fv name)) as [vals|e]; simpl in H; [|discriminate].
+        destruct (assign_cast (s_dtype sn) vals) as [d|e]; simpl in H; [|discriminate].
+        destruct (IH _ _ H) as [I1 [I2 [I3 [I4 [I5 [I6 I7]]]]]].
+        split; [rewrite I1; reflexivity|]. split; [rewrite I2; reflexivity|]. split; [rewrite I3; reflexivity|].
+        split; [rewrite I4; reflexivity|]. split; [rewrite I5; simpl; apply replace_keys|]. split.
+        * rewrite I6. simpl. clear - En. induction (c_vars r) as [|[k a] l IHl]; simpl in *; [reflexivity|].
+          destruct (String.eqb name k) eqn:E; simpl.
+          -- inversion En; subst. reflexivity.
+          -- rewrite IHl by exact En. reflexivity.
+        * intros k Hk. simpl in Hk. apply orb_false_iff in Hk as [Hk1 Hk2]. rewrite (I7 k Hk2).
+          simpl. apply lookup_replace_other. intros E. subst. rewrite String.eqb_refl in Hk1. discriminate.
+      + destruct (IH _ _ H) as [I1 [I2 [I3 [I4 [I5 [I6 I7]]]]]]. repeat split; try assumption.
+        intros k Hk. simpl in Hk. apply orb_false_iff in Hk as [_ Hk2]. exact (I7 k Hk2).
   Qed.
 
   Lemma in_names_In k l : in_names k l = true <-> In k l.
@@ -560,59 +562,58 @@ Section Facts.
   Lemma in_names_false k l : ~ In k l -> in_names k l = false.
   Proof. intros H. apply not_true_is_false. intros E. apply in_names_In in E. contradiction. Qed.
 
-  (* every variable in `names` ends up holding exactly NumPy's cast (to the dtype the core reindex kept) of what
-     Series.reindex answered for (old span, old dtype and data, new span, that variable's method, that variable's fill =
-     per-variable keyword else fill_value): the mixin's new periods are pandas' fills, not the core's *)
+  (* every variable in `names`: WITHOUT a fill method it is exactly as the core reindex made it; WITH a method m it holds NumPy's
+     cast (to the dtype the core kept) of what Series.reindex answered for (old span, old dtype and data, new span, m, that variable's
+     fill = per-variable keyword else fill_value) *)
   Theorem pandas_loop_var orig new_span mf fills fv : forall names r r',
     NoDup names ->
     pandas_loop' orig new_span mf fills fv names r = Ret r' ->
     forall name, In name names ->
-    exists so sn vals d,
-      lookup name (c_vars orig) = Some so /\ lookup name (c_vars r) = Some sn
-      /\ series_reindex (c_span orig) (s_dtype so) (s_data so) new_span (mf name) (fill_for fills fv name) = Ret vals
-      /\ assign_cast (s_dtype sn) vals = Ret d
-      /\ lookup name (c_vars r') = Some (mkSeries (s_dtype sn) (s_id sn) d).
+    match mf name with
+    | None => lookup name (c_vars r') = lookup name (c_vars r)
+    | Some m =>
+        exists so sn vals d,
+          lookup name (c_vars orig) = Some so /\ lookup name (c_vars r) = Some sn
+          /\ series_reindex (c_span orig) (s_dtype so) (s_data so) new_span (Some m) (fill_for fills fv name) = Ret vals
+          /\ assign_cast (s_dtype sn) vals = Ret d
+          /\ lookup name (c_vars r') = Some (mkSeries (s_dtype sn) (s_id sn) d)
+    end.
   Proof.
     induction names as [|a rest IH]; intros r r' Hnd H name Hin; [contradiction|]. simpl in H.
     inversion Hnd as [|? ? Hna Hnd']; subst.
-    destruct (lookup a (c_vars orig)) as [so|] eqn:Eo; [|discriminate].
-    destruct (lookup a (c_vars r)) as [sn|] eqn:En; [|discriminate].
-    destruct (series_reindex (c_span orig) (s_dtype so) (s_data so) new_span (mf a) (fill_for fills fv a)) as [vals|e] eqn:Es; simpl in H; [|discriminate].
-    destruct (assign_cast (s_dtype sn) vals) as [d|e] eqn:Ea; simpl in H; [|discriminate].
     destruct (string_dec name a) as [E|NE].
-    - subst name. exists so, sn, vals, d. repeat split; try assumption.
-      destruct (pandas_loop_frame _ _ _ _ _ _ _ _ H) as [_ [_ [_ [_ [_ [_ I7]]]]]].
-      rewrite (I7 a (in_names_false a rest Hna)). apply set_data_lookup. exact En.
+    - subst name. destruct (mf a) as [m|] eqn:Em.
+      + destruct (lookup a (c_vars orig)) as [so|] eqn:Eo; [|discriminate].
+        destruct (lookup a (c_vars r)) as [sn|] eqn:En; [|discriminate].
+        destruct (series_reindex (c_span orig) (s_dtype so) (s_data so) new_span (Some m) (fill_for fills fv a)) as [vals|e] eqn:Es; simpl in H; [|discriminate].
+        destruct (assign_cast (s_dtype sn) vals) as [d|e] eqn:Ea; simpl in H; [|discriminate].
+        exists so, sn, vals, d. repeat split; try assumption; try reflexivity.
+        destruct (pandas_loop_frame _ _ _ _ _ _ _ _ H) as [_ [_ [_ [_ [_ [_ I7]]]]]].
+        rewrite (I7 a (in_names_false a rest Hna)). apply set_data_lookup. exact En.
+      + destruct (pandas_loop_frame _ _ _ _ _ _ _ _ H) as [_ [_ [_ [_ [_ [_ I7]]]]]]. exact (I7 a (in_names_false a rest Hna)).
     - destruct Hin as [Hin|Hin]; [congruence|].
-      destruct (IH _ _ Hnd' H name Hin) as [so' [sn' [vals' [d' [J1 [J2 [J3 [J4 J5]]]]]]]].
-      exists so', sn', vals', d'. repeat split; try assumption.
-      rewrite <- J2. symmetry. unfold set_data; simpl. apply lookup_replace_other. exact NE.
+      destruct (mf a) as [m|] eqn:Em.
+      + destruct (lookup a (c_vars orig)) as [so|] eqn:Eo; [|discriminate].
+        destruct (lookup a (c_vars r)) as [sn|] eqn:En; [|discriminate].
+        destruct (series_reindex (c_span orig) (s_dtype so) (s_data so) new_span (Some m) (fill_for fills fv a)) as [vals|e] eqn:Es; simpl in H; [|discriminate].
+        destruct (assign_cast (s_dtype sn) vals) as [d|e] eqn:Ea; simpl in H; [|discriminate].
+        pose proof (IH _ _ Hnd' H name Hin) as J.
+        assert (Hl : lookup name (c_vars (set_data r a sn d)) = lookup name (c_vars r)) by (unfold set_data; simpl; apply lookup_replace_other; exact NE).
+        destruct (mf name) as [m'|]; [|rewrite J; exact Hl].
+        destruct J as [so' [sn' [vals' [d' [J1 [J2 [J3 [J4 J5]]]]]]]].
+        exists so', sn', vals', d'. repeat split; try assumption. rewrite <- J2. symmetry. exact Hl.
+      + exact (IH _ _ Hnd' H name Hin).
   Qed.
 
-  Lemma replace_lookup_id {A} k (a : A) l : lookup k l = Some a -> replace k a l = l.
-  Proof.
-    induction l as [|[k' a'] r IH]; simpl; [reflexivity|]. destruct (String.eqb k k') eqn:E; intros H.
-    - inversion H; subst. reflexivity.
-    - rewrite (IH H). reflexivity.
-  Qed.
-  (* where pandas' answer, cast back, reproduces the series the core reindex made, the mixin changes nothing *)
-  Theorem pandas_loop_noop orig new_span mf fills fv : forall names r,
-    (forall name, In name names ->
-       exists so sn, lookup name (c_vars orig) = Some so /\ lookup name (c_vars r) = Some sn
-         /\ exists vals, series_reindex (c_span orig) (s_dtype so) (s_data so) new_span (mf name) (fill_for fills fv name) = Ret vals
-                      /\ assign_cast (s_dtype sn) vals = Ret (s_data sn)) ->
+  (* no fill method for any variable (the mixin's default arguments): the loop changes nothing, whatever pandas would answer *)
+  Theorem pandas_loop_no_method orig new_span mf fills fv : forall names r,
+    (forall name, In name names -> mf name = None) ->
     pandas_loop' orig new_span mf fills fv names r = Ret r.
   Proof.
     induction names as [|a rest IH]; intros r H; simpl; [reflexivity|].
-    destruct (H a (or_introl eq_refl)) as [so [sn [Eo [En [vals [Es Ea]]]]]].
-    rewrite Eo, En, Es. simpl. rewrite Ea. simpl.
-    assert (E : set_data r a sn (s_data sn) = r).
-    { unfold set_data. destruct r as [sp sid vars attrs strict]; simpl in *. f_equal.
-      destruct sn as [dt id d]; simpl. apply replace_lookup_id. exact En. }
-    rewrite E. apply IH. intros name Hn. apply H. right. exact Hn.
+    rewrite (H a (or_introl eq_refl)). apply IH. intros name Hn. apply H. right. exact Hn.
   Qed.
 
-  (* ================= the mixin as a whole ================= *)
   Lemma Forall2_lookup (R : string * series cell -> string * series cell -> Prop) vars vars' k a :
     Forall2 (fun x y => fst y = fst x /\ R x y) vars vars' ->
     lookup k vars = Some a -> exists b, lookup k vars' = Some b /\ R (k, a) (k, b).
@@ -623,43 +624,73 @@ Section Facts.
     - exact (IH H).
   Qed.
 
-  (* The mixin first calls the core (model) reindex WITHOUT any fill argument, then overwrites the variables in `names`.
-     So: span, strictness, attributes, variable order and dtypes are the core's; every variable outside `names` (status,
-     iterations) holds its old values at overlapping periods and '-' / -1 at new ones, whatever keywords were given. *)
+  (* Since fix 2658d81 the mixin calls the core (model) reindex WITH the fill arguments and then overwrites only the variables that
+     have a fill method.  So: span, strictness, attributes, variable order and dtypes are the core's; every variable outside `names`
+     (status, iterations) AND every variable in `names` without a method is exactly as the core made it — old values at overlapping
+     periods, its own fill (keyword > fill_value > dtype default; '-' / -1 for status / iterations) at new ones. *)
   Theorem pandas_reindex_meta (st st' : cst) (names : list string) (new_span : span) (new_id : Z) (method : option string)
           (fv : pyval) (strict : option bool) (fills : list (string * pyval)) (l1 l2 l3 l4 l5 : list string) (fresh : Z) :
     wf st ->
     old_span_ok (c_span st) (span_labels new_span) ->
+    NoDup names ->
     pandas_reindex_M pd_get_loc pd_contains cast series_reindex assign_cast st names new_span new_id method fv strict fills l1 l2 l3 l4 l5 fresh = Ret st' ->
     c_span st' = new_span /\ c_span_id st' = fresh /\ c_strict st' = c_strict st
     /\ attrs_view (c_attrs st') = attrs_view (c_attrs st)
     /\ map fst (c_vars st') = map fst (c_vars st)
     /\ map (fun kv => s_dtype (snd kv)) (c_vars st') = map (fun kv => s_dtype (snd kv)) (c_vars st)
-    /\ (forall k sr, in_names k names = false -> lookup k (c_vars st) = Some sr ->
+    /\ (forall k sr, (in_names k names = false \/ method_for l1 l2 l3 l4 l5 method k = None) -> lookup k (c_vars st) = Some sr ->
           exists sr' c, lookup k (c_vars st') = Some sr' /\ s_dtype sr' = s_dtype sr
-            /\ fill_cell' (length (span_labels new_span)) (s_dtype sr) (model_fill [] PNone k) = Ret c
+            /\ fill_cell' (length (span_labels new_span)) (s_dtype sr) (model_fill fills fv k) = Ret c
             /\ map erase (s_data sr') = map erase (reindexed_data (span_labels (c_span st)) (s_data sr) c (span_labels new_span))
             /\ (s_dtype sr <> DObj -> s_data sr' = reindexed_data (span_labels (c_span st)) (s_data sr) c (span_labels new_span))).
   Proof.
-    intros Hwf Hok H. unfold pandas_reindex_M in H.
-    destruct ((match strict with None => c_strict st | Some b => b end) && existsb (fun kv => negb (in_names (fst kv) names)) fills); [discriminate|].
-    destruct (model_reindex_M pd_get_loc pd_contains cast st new_span new_id PNone None [] fresh) as [r|e] eqn:Er; simpl in H; [|discriminate].
-    destruct (model_reindex_values st r new_span new_id PNone None [] fresh Hwf Hok Er) as [M1 [M2 [M3 [M4 M5]]]].
+    intros Hwf Hok Hnd H. unfold pandas_reindex_M in H.
+    destruct ((match strict with None => c_strict st | Some b => b end) && existsb (fun kv => negb (mem_name (fst kv) (c_vars st))) fills); [discriminate|].
+    destruct (model_reindex_M pd_get_loc pd_contains cast st new_span new_id fv strict fills fresh) as [r|e] eqn:Er; simpl in H; [|discriminate].
+    destruct (model_reindex_values st r new_span new_id fv strict fills fresh Hwf Hok Er) as [M1 [M2 [M3 [M4 M5]]]].
     destruct (pandas_loop_frame _ _ _ _ _ _ _ _ H) as [F1 [F2 [F3 [F4 [F5 [F6 F7]]]]]].
     assert (Hkeys : map fst (c_vars r) = map fst (c_vars st) /\ map (fun kv => s_dtype (snd kv)) (c_vars r) = map (fun kv => s_dtype (snd kv)) (c_vars st)).
     { clear - M5. induction M5 as [|a b l l' [Ha [Hb _]] HF [I1 I2]]; simpl; [split; reflexivity|]. rewrite Ha, Hb, I1, I2. split; reflexivity. }
     destruct Hkeys as [K1 K2].
     split; [rewrite F1; exact M1|]. split; [rewrite F2; exact M2|]. split; [rewrite F4; exact M3|].
     split; [rewrite F3; exact M4|]. split; [rewrite F5; exact K1|]. split; [rewrite F6; exact K2|].
-    intros k sr Hk Hl. rewrite (F7 k Hk).
+    intros k sr Hk Hl.
+    assert (Hsame : lookup k (c_vars st') = lookup k (c_vars r)).
+    { destruct Hk as [Hk|Hk]; [exact (F7 k Hk)|].
+      destruct (in_names k names) eqn:Ein; [|exact (F7 k Ein)]. apply in_names_In in Ein.
+      pose proof (pandas_loop_var _ _ _ _ _ _ _ _ Hnd H k Ein) as J. rewrite Hk in J. exact J. }
+    rewrite Hsame.
     destruct (Forall2_lookup (fun a b => s_dtype (snd b) = s_dtype (snd a)
-                 /\ exists c, fill_cell' (length (span_labels new_span)) (s_dtype (snd a)) (model_fill [] PNone (fst a)) = Ret c
+                 /\ exists c, fill_cell' (length (span_labels new_span)) (s_dtype (snd a)) (model_fill fills fv (fst a)) = Ret c
                            /\ map erase (s_data (snd b)) = map erase (reindexed_data (span_labels (c_span st)) (s_data (snd a)) c (span_labels new_span))
                            /\ (s_dtype (snd a) <> DObj -> s_data (snd b) = reindexed_data (span_labels (c_span st)) (s_data (snd a)) c (span_labels new_span)))
                (c_vars st) (c_vars r) k sr) as [b [Hb [Hd [c [Hc [Hdata Hex]]]]]].
     - clear - M5. induction M5 as [|a b l l' [Ha [Hb Hc]] HF IH]; constructor; [|exact IH]. split; [exact Ha|]. split; [exact Hb | exact Hc].
     - exact Hl.
     - simpl in *. exists b, c. split; [exact Hb|]. split; [exact Hd|]. split; [exact Hc|]. split; [exact Hdata | exact Hex].
+  Qed.
+
+  (* the mixin with its DEFAULT pandas arguments (no method, no per-variable method lists) IS the core model reindex with the same
+     fill arguments (formerly refuted: findings #11 and the status / iterations keywords; fixed by 2658d81) *)
+  Lemma existsb_app_true {A} (P : A -> bool) l l' : existsb P l = true -> existsb P (l ++ l') = true.
+  Proof. intros H. rewrite existsb_app, H. reflexivity. Qed.
+  Lemma strict_test_with_defaults (st : cst) fills :
+    existsb (fun kv => negb (mem_name (fst kv) (c_vars st))) fills = true ->
+    existsb (fun kv => negb (mem_name (fst kv) (c_vars st))) (with_model_defaults fills) = true.
+  Proof.
+    intros H. unfold with_model_defaults. cbv zeta.
+    destruct (mem_name "status" fills); destruct (mem_name "iterations" _); repeat apply existsb_app_true; exact H.
+  Qed.
+  Theorem pandas_default_is_core (st : cst) (names : list string) (new_span : span) (new_id : Z)
+          (fv : pyval) (strict : option bool) (fills : list (string * pyval)) (fresh : Z) :
+    pandas_reindex_M pd_get_loc pd_contains cast series_reindex assign_cast st names new_span new_id None fv strict fills [] [] [] [] [] fresh
+    = model_reindex_M pd_get_loc pd_contains cast st new_span new_id fv strict fills fresh.
+  Proof.
+    unfold pandas_reindex_M.
+    destruct ((match strict with None => c_strict st | Some b => b end) && existsb (fun kv => negb (mem_name (fst kv) (c_vars st))) fills) eqn:E.
+    - apply andb_true_iff in E as [E1 E2]. unfold model_reindex_M, reindex_M. rewrite E1, (strict_test_with_defaults st fills E2). reflexivity.
+    - destruct (model_reindex_M pd_get_loc pd_contains cast st new_span new_id fv strict fills fresh) as [r|e]; simpl; [|reflexivity].
+      apply pandas_loop_no_method. intros name _. reflexivity.
   Qed.
 
   (* ================= reindex, then label access (C12 observed through C10's access path) =================
